@@ -125,6 +125,26 @@ class AppRun:
         # assign: how the application installs its callbacks - "ctor" (constructor arguments), "after-init" (attributes set on the
         # object before run_forever) or "in-on_open" (all but on_open/on_cont_message set from inside on_open, while running)
         self.assign = assign
+        # ambient conditions for application-level runs (see harness.ambient): TLS transport instead of plain, another way of
+        # installing the callbacks, trace logging - none of which changes what the application is told
+        self.ambient = None
+        if H.AMB.on and "app" in H.AMB.dims:
+            r = H.AMB.rng
+            self.ambient = {"tls": url.startswith("ws://") and r.random() < 0.3, "assign": r.choice(["ctor", "ctor", "after-init", "in-on_open"]) if assign == "ctor" else assign,
+                            "trace": r.random() < 0.15}
+            first_ok = bool(plan) and plan[0].get("outcome") == "ok" and plan[0].get("tls_error") is None and plan[0].get("response") is None
+            if self.ambient["assign"] == "in-on_open" and ((raising and "on_open" in raising) or not first_ok):
+                # callbacks installed from on_open exist only once a connection has been opened
+                self.ambient["assign"] = "after-init"
+            if self.ambient["tls"]:
+                url = "wss://" + url[len("ws://"):]
+            self.assign = self.ambient["assign"]
+            H.AMB.last = dict(self.ambient)
+            for k, v in self.ambient.items():
+                key = "app:" + (k if isinstance(v, bool) else f"{k}={v}")
+                if v:
+                    H.AMB.counts[key] = H.AMB.counts.get(key, 0) + 1
+            H.AMB.counts["app:runs"] = H.AMB.counts.get("app:runs", 0) + 1
         self.plan = plan
         self.url = url
         self.enabled = set(self.CALLBACKS[:8] if callbacks is None else callbacks)
@@ -223,6 +243,9 @@ class AppRun:
     def build(self):
         W = H.ws()
         shim.set_network(self.network)
+        if self.ambient is not None:
+            import logging
+            W.enableTrace(bool(self.ambient["trace"]), handler=logging.NullHandler())
         cbs = {n: self._cb(n) for n in self.enabled}
         if self.assign == "ctor":
             kw = dict(cbs)
